@@ -89,7 +89,7 @@ pub fn decode_history(data: &[u8]) -> Option<DecHistory> {
     let mut cuts: Vec<usize> = cutb[..ncuts.min(4)].iter().map(|c| (*c as usize * (n + 1)) >> 8).collect();
     cuts.sort();
     let sinks_per_call = if fill & 0xC0 == 0xC0 { vec![Sink::ALL[(fill & 3) as usize], Sink::ALL[((fill >> 2) & 3) as usize], sink] } else { vec![] };
-    Some(DecHistory { enc, mode, sink, repl, stream, cuts, last_on_empty, caps, fill, align, sinks_per_call })
+    Some(DecHistory { enc, mode, sink, repl, stream, cuts, last_on_empty, caps, fill, align, sinks_per_call, repls_per_call: vec![] })
 }
 
 pub fn fuzz_decode(data: &[u8]) {
